@@ -188,6 +188,26 @@ func runC11(c *Ctx) {
 		}
 		return n
 	}
+	// … and what each of them decodes is the JSON text of the patch's own value: not of a typed or filtered copy (a
+	// copy decoded by encoding/json matches member names case-insensitively and drops unknown members, so the two
+	// sides would read different operations out of one patch)
+	for _, side := range []struct {
+		name string
+		f    *ssa.Function
+	}{{"validator", pvJSONValidate(c, V)}, {"composer", applyJSON}} {
+		if side.f == nil {
+			continue
+		}
+		tcs := c.treeCalls(side.f, nil, 0, func(cl *ssa.Call, env Env) bool { return cl.Call.StaticCallee() == decode })
+		okSrc := len(tcs) == 1
+		src := ""
+		if okSrc {
+			src = c.Path(tcs[0].call.Call.Args[0], tcs[0].env)
+			inner := strings.TrimSuffix(strings.TrimPrefix(src, "encoding/json.Marshal("), ")#0")
+			okSrc = strings.HasPrefix(src, "encoding/json.Marshal(") && strings.HasSuffix(src, ")#0") && strings.Contains(inner, "$") && !strings.Contains(inner, "new<") && !strings.Contains(inner, "make") && !strings.Contains(inner, "decoded(")
+		}
+		c.Check("C11.K1", "decoder-input:"+side.name, okSrc, side.f.Pos(), fmt.Sprintf("%s decodes json.Marshal of the patch's own value (%s)", side.name, src))
+	}
 	c.Check("C11.K1", "same-decoder", deepCalls(V) == 1 && applyJSON != nil && deepCalls(applyJSON) == 1, V.Pos(), "validator and composer (the ietf-json-patch handler and its helpers) both decode the patch with jsonpatch.DecodePatch, once")
 	// accessors address keys/services through the same constants
 	for _, acc := range []struct{ typ, m, konst string }{{"Document", "PublicKeys", pk}, {"DIDDocument", "PublicKeys", pk}, {"DIDDocument", "Services", svc}} {
@@ -204,7 +224,7 @@ func runC11(c *Ctx) {
 		}
 		c.Check("C11.K1", "accessor:"+acc.typ+"."+acc.m, ok, 0, fmt.Sprintf("%s.%s reads member %s", acc.typ, acc.m, acc.konst))
 	}
-	c.Min("C11.K1", 5)
+	c.Min("C11.K1", 7)
 
 	// the JSON validator requires V; dispatch maps ietf-json-patch to it
 	pvValidate := c.Fn(pPV, "Validate")
@@ -264,6 +284,20 @@ func runC11(c *Ctx) {
 	}
 	c.Min("C11.G1", 8)
 	c.Assume("json-patch v4.1.0 semantics: a member that is absent, null or not a JSON string yields the pointer \"unknown\", for which findObject fails; RFC 6901 escapes (~0, ~1) introduce only '~' and '/', neither of which occurs in the protected member names; findObject returns nil for the root pointer")
+}
+
+// pvJSONValidate: the exported validator method that leads to the pointer validator V (its frame holds the patch).
+func pvJSONValidate(c *Ctx, V *ssa.Function) *ssa.Function {
+	for _, f := range c.Funcs {
+		if pkgPathOf(f) == modPkg+pPV && f.Name() == "Validate" && f.Signature.Recv() != nil {
+			for _, g := range c.reachableModuleFuncs([]*ssa.Function{f}) {
+				if g == V {
+					return f
+				}
+			}
+		}
+	}
+	return nil
 }
 
 // prefixTest: call is a test "subject starts with prefix" whose true result says so: strings.HasPrefix(subject, prefix),
